@@ -48,7 +48,9 @@ def model_check(ctx, name, consts, inv, subst=None, workers=8, timeout=3000, act
     if act:
         tail += "PROPERTIES %s\n" % " ".join(act)
     cfg = write(ctx, "MC_Router_" + name, cfg_text(c, sb, tail + "CHECK_DEADLOCK FALSE\n"))
-    return vlib.run_tlc(ctx, "MC_Router", cfg=cfg, workers=workers, timeout=timeout, heap="24g")
+    # a run that does not finish within the budget is reported as not exhaustive (evidence: exhaustive false), not as an error
+    budget = min(timeout, 1200 if ctx.quick else 1500)
+    return vlib.run_tlc(ctx, "MC_Router", cfg=cfg, workers=workers, timeout=budget, heap="24g", allow_timeout=True)
 
 
 def gen_scripts(ctx, name, consts, want, depth, subst=None):
@@ -269,7 +271,7 @@ def run_router_property(ctx, pid, mc_runs, gen_runs, inv, big=True, act=(), trac
     for name, consts, subst in mc_runs:
         res = model_check(ctx, name, consts, inv, subst, workers=8 if ctx.quick else 14, act=act)
         states += res.distinct; transitions += res.generated
-        runs.append({"config": name, "distinct": res.distinct, "generated": res.generated, "depth": res.depth, "ok": res.ok,
+        runs.append({"config": name, "distinct": res.distinct, "generated": res.generated, "depth": res.depth, "ok": res.ok, "exhaustive": not res.partial,
                      "constants": {k: str(v) for k, v in consts.items()}})
         if not res.ok:
             ctx.violation("RouterSys.tla (model of the current router code) violates %s in configuration %s" % (res.invariant_violated or "an action property", name),
